@@ -296,7 +296,10 @@ def lex (s : Str) : List Tok := go .top s
 def goTR (m : Mode) (cs : Str) (out : Array Tok) : Array Tok :=
   match cs with
   | [] => out ++ (finish m).toArray
-  | c :: cs => goTR (step m c).2 cs (out ++ (step m c).1.toArray)
+  | c :: cs =>
+    match step m c with
+    | ([], m') => goTR m' cs out
+    | (t :: ts, m') => goTR m' cs ((out.push t) ++ ts.toArray)
 
 def lexFast (s : Str) : List Tok := (goTR .top s #[]).toList
 
@@ -425,6 +428,24 @@ def dblBt : Str → Str
 
 /-- the back-tick branch of `EscapePropertyKeyName` -/
 def escapeKeyBt (name : Str) : Str := '`' :: (dblBt name ++ ['`'])
+
+/-- expression.go `rewriteStringWildCardLiteral`: `strings.NewReplacer("\\", "\\\\", "%", "\\%", "_", "\\_")` -/
+def likeEsc : Str → Str
+  | [] => []
+  | c :: cs => if c = '\\' ∨ c = '%' ∨ c = '_' then '\\' :: c :: likeEsc cs else c :: likeEsc cs
+
+/-- the literal string a LIKE pattern without wildcards matches (default escape character `\\`);
+`none` when the pattern contains an unescaped wildcard or ends in a lone escape. `pending` = the previous
+character was the escape character. -/
+def likeLitGo (pending : Bool) : Str → Option Str
+  | [] => if pending then none else some []
+  | c :: cs =>
+    if pending then (likeLitGo false cs).map (c :: ·)
+    else if c = '\\' then likeLitGo true cs
+    else if c = '%' ∨ c = '_' then none
+    else (likeLitGo false cs).map (c :: ·)
+
+def likeLiteral (p : Str) : Option Str := likeLitGo false p
 
 /-! ## identifier safety -/
 
